@@ -5,7 +5,12 @@ include!(concat!(env!("OUT_DIR"), "/mods.rs"));
 
 mod fw;
 mod subject;
+mod ast;
+mod progcmp;
+mod refbuiltins;
+mod refeval;
 mod p01;
+mod p02;
 mod p06;
 mod p09;
 mod p10;
@@ -16,6 +21,7 @@ use fw::*;
 fn make(id: &str, tier: Tier) -> Option<Box<dyn Property>> {
     Some(match id {
         "C01" => Box::new(p01::P01::new(tier)),
+        "C02" => Box::new(p02::P02::new(tier)),
         "C06" => Box::new(p06::P06::new(tier)),
         "C10" => Box::new(p10::P10::new(tier)),
         "C09" => Box::new(p09::P09::new(tier)),
